@@ -145,3 +145,17 @@ Lemma closed_example :
     = Changed (T [97; 46; 115; 101; 116; 95; 120; 40; 97; 46; 103; 101; 116; 95; 120; 40; 41; 32; 43; 32; 49; 41; 10;
                   98; 46; 115; 101; 116; 95; 120; 40; 98; 46; 103; 101; 116; 95; 120; 40; 41; 32; 43; 32; 50; 41; 10]).
 Proof. split; vm_compute; reflexivity. Qed.
+
+(* a module whose text ends with a write of the field and has no final newline: the pending setter call ends exactly
+   at len(source) and is closed by the final flush (`last_set <= offset`, not `<`): "a.x = 5" -> "a.set_x(5)",
+   "a.x *= 3" -> "a.set_x(a.get_x() * 3)" *)
+Lemma eof_write_example :
+  changed_module (T [97; 46; 120; 32; 61; 32; 53]) w_get w_set 0 0
+    [ {| o_start := 2; o_end := 3; o_prim := 0; o_tuple := false; o_line_end := 7; o_rhs_primary := true |} ]
+    = Changed (T [97; 46; 115; 101; 116; 95; 120; 40; 53; 41]) /\
+  no_overlap (T [97; 46; 120; 32; 61; 32; 53]) 0 0 None
+    [ {| o_start := 2; o_end := 3; o_prim := 0; o_tuple := false; o_line_end := 7; o_rhs_primary := true |} ] = true /\
+  changed_module (T [97; 46; 120; 32; 42; 61; 32; 51]) w_get w_set 0 0
+    [ {| o_start := 2; o_end := 3; o_prim := 0; o_tuple := false; o_line_end := 8; o_rhs_primary := true |} ]
+    = Changed (T [97; 46; 115; 101; 116; 95; 120; 40; 97; 46; 103; 101; 116; 95; 120; 40; 41; 32; 42; 32; 51; 41]).
+Proof. repeat split; vm_compute; reflexivity. Qed.
